@@ -2,7 +2,7 @@
 from hypothesis import strategies as st
 from vlib.core import Sub, Outcome
 from vlib import gen, sgrterm
-from vlib.interp import (Interp, BuilderInvalid, per_char, change_points, describe, wellformed, styles, style, groups)
+from vlib.interp import (Interp, BuilderInvalid, per_char_ids, per_char, change_points, describe, wellformed, styles, style, groups)
 from ansi_string import AnsiString, AnsiStr
 
 RULE = ('values = generated programs, ESC-free text. round trip: well-formed settings only (known, clear, reset, '
@@ -51,8 +51,11 @@ def eval_roundtrip(case):
     if ('\x1b' in t and not case.get('csi')) or not wellformed(per) or '\x1b' in strip_csi(t):
         o.skipped = 'not-wellformed-or-esc'
         return o
+    ids_ = per_char_ids(v)
     for m_ in _CSI_NON_SGR.finditer(t):
-        if any(per[k] != per[m_.start()] for k in range(m_.start(), m_.end())):
+        # a change point (even between equal-valued settings) inside an embedded control sequence makes the renderer
+        # put an SGR sequence inside that control sequence: outside the domain
+        if any(ids_[k] != ids_[m_.start()] for k in range(m_.start(), m_.end())):
             o.skipped = 'style-change-inside-embedded-control-sequence'
             return o
     sty = styles(per)
